@@ -307,7 +307,11 @@ pub fn arg_to_crate(a: &RArg) -> Argument {
         unit: a.unit.clone(),
         fixed_point: a.fixp.map(|(q, off)| FixedPoint {
             quantization: f32::from_bits(q),
-            offset: if width == 64 { FixedPointValue::I64(off) } else { FixedPointValue::I32(off as i32) },
+            offset: if width == 64 {
+                FixedPointValue::I64(off)
+            } else {
+                FixedPointValue::I32(off as i32)
+            },
         }),
         value: value_to_crate(a.ty.kind, &a.val),
     }
@@ -337,12 +341,19 @@ pub fn payload_to_crate(m: &RMsg) -> PayloadContent {
 pub fn to_crate(m: &RMsg) -> Message {
     Message {
         storage_header: m.storage.as_ref().map(|s| StorageHeader {
-            timestamp: DltTimeStamp { seconds: s.secs, microseconds: s.micros },
+            timestamp: DltTimeStamp {
+                seconds: s.secs,
+                microseconds: s.micros,
+            },
             ecu_id: s.ecu.clone(),
         }),
         header: StandardHeader {
             version: m.htyp >> 5,
-            endianness: if m.htyp & MSBF != 0 { Endianness::Big } else { Endianness::Little },
+            endianness: if m.htyp & MSBF != 0 {
+                Endianness::Big
+            } else {
+                Endianness::Little
+            },
             has_extended_header: m.htyp & UEH != 0,
             message_counter: m.mcnt,
             ecu_id: m.ecu.clone(),
@@ -451,11 +462,16 @@ pub fn from_crate(m: &Message) -> FromCrate {
                 let want = match x.type_info.kind {
                     TypeInfoKind::Bool => 8,
                     TypeInfoKind::Signed(l) | TypeInfoKind::Unsigned(l) => l as usize as u8,
-                    TypeInfoKind::SignedFixedPoint(l) | TypeInfoKind::UnsignedFixedPoint(l) | TypeInfoKind::Float(l) => l as usize as u8,
+                    TypeInfoKind::SignedFixedPoint(l)
+                    | TypeInfoKind::UnsignedFixedPoint(l)
+                    | TypeInfoKind::Float(l) => l as usize as u8,
                     _ => 0,
                 };
                 if value_bits(&x.value) != want {
-                    inconsistent = Some(format!("value {:?} does not match type {:?}", x.value, x.type_info.kind));
+                    inconsistent = Some(format!(
+                        "value {:?} does not match type {:?}",
+                        x.value, x.type_info.kind
+                    ));
                 }
             }
             RPayload::Verbose(a.iter().map(arg_from_crate).collect())
@@ -505,15 +521,27 @@ pub fn from_crate(m: &Message) -> FromCrate {
                 0
             }
         };
-        RExt { msin: msin | e.verbose as u8, noar: e.argument_count, apid: e.application_id.clone(), ctid: e.context_id.clone() }
+        RExt {
+            msin: msin | e.verbose as u8,
+            noar: e.argument_count,
+            apid: e.application_id.clone(),
+            ctid: e.context_id.clone(),
+        }
     });
     let len = headers_len(htyp) + h.payload_length as usize;
     if len > 65535 {
-        inconsistent = Some(format!("payload length {} exceeds the 16-bit length field", h.payload_length));
+        inconsistent = Some(format!(
+            "payload length {} exceeds the 16-bit length field",
+            h.payload_length
+        ));
     }
     FromCrate {
         msg: RMsg {
-            storage: m.storage_header.as_ref().map(|s| RStorage { secs: s.timestamp.seconds, micros: s.timestamp.microseconds, ecu: s.ecu_id.clone() }),
+            storage: m.storage_header.as_ref().map(|s| RStorage {
+                secs: s.timestamp.seconds,
+                micros: s.timestamp.microseconds,
+                ecu: s.ecu_id.clone(),
+            }),
             htyp,
             mcnt: h.message_counter,
             len: len as u16,
@@ -562,13 +590,19 @@ pub fn args_eq_bits(a: &Argument, b: &Argument) -> bool {
 /// `Ok(())` when the two messages are equal field for field, floats bit for bit.
 pub fn msg_eq_bits(a: &Message, b: &Message) -> Result<(), String> {
     if a.storage_header != b.storage_header {
-        return Err(format!("storage header {:?} != {:?}", a.storage_header, b.storage_header));
+        return Err(format!(
+            "storage header {:?} != {:?}",
+            a.storage_header, b.storage_header
+        ));
     }
     if a.header != b.header {
         return Err(format!("standard header {:?} != {:?}", a.header, b.header));
     }
     if a.extended_header != b.extended_header {
-        return Err(format!("extended header {:?} != {:?}", a.extended_header, b.extended_header));
+        return Err(format!(
+            "extended header {:?} != {:?}",
+            a.extended_header, b.extended_header
+        ));
     }
     match (&a.payload, &b.payload) {
         (PayloadContent::Verbose(x), PayloadContent::Verbose(y)) => {
@@ -577,7 +611,12 @@ pub fn msg_eq_bits(a: &Message, b: &Message) -> Result<(), String> {
             }
             for (i, (p, q)) in x.iter().zip(y.iter()).enumerate() {
                 if !args_eq_bits(p, q) {
-                    return Err(format!("argument {}: {:?} != {:?}", i, short_dbg(p), short_dbg(q)));
+                    return Err(format!(
+                        "argument {}: {:?} != {:?}",
+                        i,
+                        short_dbg(p),
+                        short_dbg(q)
+                    ));
                 }
             }
             Ok(())
